@@ -174,6 +174,28 @@ func Backrefs(quick bool) Family {
 			}
 		}
 	}
+	// back-references combined with nested states that Return() / Pop() back into the referring state
+	for _, e := range []string{`(a)`, `(a|b)`, `(\.)x?`} {
+		for _, b := range []string{`\1`, `\1\1`, `!\1`} {
+			for _, inner := range [][]m.Rule{
+				{r("In", `b`), ret()},
+				{ret()},
+				{r("In", `x`), pop("Out", `\.`)},
+				{push("Deeper", `\((.)`, "S"), ret()},
+			} {
+				defs = append(defs, m.Def{
+					"Root": {push("Enter", e, "S"), r("Any", `(?s:.)`)},
+					"S":    {push("Sub", `x`, "T"), r("Ref", b), pop("End", `!`), r("Other", `(?s:.)`)},
+					"T":    inner,
+				})
+				defs = append(defs, m.Def{
+					"Root": {push("Enter", e, "S"), r("Any", `(?s:.)`)},
+					"S":    {r("Ref", b), push("Sub", `x`, "T"), pop("End", `!`)},
+					"T":    inner,
+				})
+			}
+		}
+	}
 	return Family{Name: "backref", Defs: defs, Alphabet: []string{"a", "b", ".", "(", "!", "\\", "1", "x"}, MaxLen: lenFor(quick, 4, 5)}
 }
 
